@@ -18,18 +18,24 @@ PROPERTY = "C12"
 LEVEL = "exploration"
 RULE = ("A reaction line is rendered from a description: 0-4 terms per side over a pool of 1-5 space-free keys (G1 "
         "formulas incl. keys beginning with ( [ {, charges, phases, primes, hydrates, prefixes; plain names), each term "
-        "written bare / 'n X' / 'n * X' / 'n.0 X' / 'n.5 X', optionally as inactive group '(n X)', repeats summed, arrow "
+        "written bare / 'n X' / 'n * X' / 'n.0 X' / decimal 'n.d X' (n 0..999, d a multiple of 1/8 in 1-3 decimals), "
+        "optionally as inactive group '(n X)', repeats summed, arrow "
         "'->' or '=', optional '; param' (int, float over 35 decades, None) and '; name=.., ref=..'; the expected "
         "reac/prod/inact_reac/inact_prod are summed from the description with Fractions.  Unknown-key rejection: one used "
         "key removed from the allowed list (list / space separated str / dict).  Round trip: objects built by the "
-        "constructors from the description (no inactive groups, no name), printed, parsed back and compared field by "
-        "field with the description (parameter to 3 significant digits, exactly when written with <= 3).  Systems: 1-6 "
+        "constructors from the description (no inactive groups, no name; coefficients 1..1000, 'n.0' floats and "
+        "non-integral decimals 0.001..999.999 with 1-3 decimals, the latter with checks=()), printed, parsed back and "
+        "compared field by field with the description (coefficients exactly; parameter to 3 significant digits, exactly "
+        "when written with <= 3).  Systems: 1-6 "
         "reaction lines with comments, blank and indented lines.  Non-trivial = a key beginning with a bracket or carrying "
         "a charge, together with a coefficient > 1 or a repeated key; distinct by case digest.")
 ASSUMPTIONS = ["vlib/gen_formula.py renders the G1 species keys (text only; the composition plays no role here)",
                "keys that are entirely one parenthesised group are excluded (ambiguous with an inactive group): such a "
                "generated key gets the count 2 appended",
-               "decimal coefficients are multiples of 1/4, so float sums are exact and compared exactly",
+               "written decimal coefficients of the `parse`/`system` lines are multiples of 1/8 below 1000, so float sums "
+               "of repeats are exact and compared exactly",
+               "a constructed decimal coefficient 'n.ddd' is the Python float of that literal; it has to come back from "
+               "print->parse as exactly that float (no sums occur: the keys of one side are distinct)",
                "a printed float parameter is compared with float('%.3g' % p) (the documented printed precision)"]
 
 PLAIN = ["A", "B", "C", "X", "Y", "R1", "foo", "prod_2", "H2O", "O2", "NaCl", "OH-", "Fe+3", "e-"]
@@ -101,10 +107,31 @@ def key_is_interesting(t):
 # one reaction line
 # ---------------------------------------------------------------------------------------------
 
+_EIGHTHS = ["5", "25", "75", "125", "375", "625", "875", "50", "250"]     # exact binary fractions, 1-3 decimals
+
+
+def _int_part(draw):
+    """integer part of a decimal coefficient: 0 (simplest), 1..9, 10..99, 100..999 - all magnitudes up to 10^3"""
+    m = draw(st.integers(0, 6))
+    if m == 0:
+        return 0
+    if m < 3:
+        return draw(st.integers(1, 9))
+    if m < 5:
+        return draw(st.integers(10, 99))
+    return draw(st.integers(100, 999))
+
+
+def _decimal_text(draw):
+    """a non-integral decimal literal 'n.d', n 0..999, 1-3 decimals (d != 0): 0.5, 1.5, 12.25, 106.5, 999.975 ..."""
+    nd = draw(st.integers(1, 3))
+    return "%d.%0*d" % (_int_part(draw), nd, draw(st.integers(1, 10 ** nd - 1)))
+
+
 @st.composite
 def _term(draw, npool, allow_inactive=True, allow_decimal=True):
     k = draw(st.integers(0, npool - 1))
-    s = draw(st.integers(0, 11))
+    s = draw(st.integers(0, 12))
     star = False
     if s < 4:
         c = ""
@@ -118,7 +145,7 @@ def _term(draw, npool, allow_inactive=True, allow_decimal=True):
     elif s == 10 or not allow_decimal:
         c = "%d.0" % draw(st.integers(1, 20))
     else:
-        c = "%d.%s" % (draw(st.integers(0, 9)), draw(st.sampled_from(["5", "25", "75"])))
+        c = "%d.%s" % (_int_part(draw), draw(st.sampled_from(_EIGHTHS)))
     inactive = allow_inactive and draw(st.integers(0, 9)) >= 8
     return {"k": k, "c": c, "star": star, "inactive": inactive}
 
@@ -370,7 +397,7 @@ def parse_cases(draw):
 
 @st.composite
 def _coef(draw, allow_decimal=True):
-    s = draw(st.integers(0, 11))
+    s = draw(st.integers(0, 12))
     if s < 4:
         return "1"
     if s < 9:
@@ -379,7 +406,7 @@ def _coef(draw, allow_decimal=True):
         return str(draw(st.integers(13, 1000)))
     if s == 10 or not allow_decimal:
         return "%d.0" % draw(st.integers(1, 20))
-    return "%d.%s" % (draw(st.integers(0, 9)), draw(st.sampled_from(["5", "25", "75"])))
+    return _decimal_text(draw)
 
 
 def _rt_param(draw):
@@ -412,9 +439,29 @@ def _num(c):
     return float(c) if "." in c else int(c)
 
 
+def coef_labels(coefs):
+    """classes of the written coefficients of a constructed object"""
+    out = set()
+    for c in coefs:
+        if "." not in c:
+            continue
+        out.add("decimal_coef")
+        if Fraction(c).denominator != 1:
+            out.add("nonintegral_coef")
+            if Fraction(c) < 1:
+                out.add("nonintegral_coef<1")
+            if Fraction(c) > 100:
+                out.add("nonintegral_coef>100")
+            if len(c.replace(".", "").strip("0")) > 3:
+                out.add("nonintegral_coef_4+_significant_digits")
+    return sorted(out)
+
+
 def object_expectation(case):
     kt = [key_text(k) for k in case["keys"]]
-    exp = {"reac": {kt[i]: Fraction(c) for i, c in case["reac"]}, "prod": {kt[i]: Fraction(c) for i, c in case["prod"]},
+    # Fraction(_num(c)): the exact value of the int/float the object is built with (build_object uses the same _num)
+    exp = {"reac": {kt[i]: Fraction(_num(c)) for i, c in case["reac"]},
+           "prod": {kt[i]: Fraction(_num(c)) for i, c in case["prod"]},
            "inact_reac": {}, "inact_prod": {}}
     return exp
 
@@ -475,8 +522,7 @@ def check_roundtrip(case, ctx):
     ctx.label(case["kind"], "param=" + ("None" if p is None else p["t"]))
     if p is not None and p["t"] == "float":
         ctx.label("digits=%d" % len(p["v"].split("e")[0]))
-    if any("." in c for _, c in case["reac"] + case["prod"]):
-        ctx.label("decimal_coef")
+    ctx.label(*coef_labels(c for _, c in case["reac"] + case["prod"]))
     if any(k[:1] == "(" for k in used):
         ctx.label("key_starts_with_paren")
     if no_checks:
@@ -646,6 +692,9 @@ def check_system_roundtrip(case, ctx):
     no_checks = any(needs_no_checks(e) for e in exps)
     built = [build_object(rx, True) for rx in case["rxns"]]
     ctx.label("factory=" + case["factory"], "subst=" + case["subst"], "nrxn=%d" % len(built))
+    ctx.label(*coef_labels(c for rx in case["rxns"] for _, c in rx["reac"] + rx["prod"]))
+    if no_checks:
+        ctx.label("rxn_parse_kwargs:checks=()")
     ctx.nontrivial(len(built) >= 2 and any(key_is_interesting(k) for k in union))
     kw = {"checks": ()}
     if case["factory"] == "plain":
